@@ -129,6 +129,11 @@ def run(ctx, selftest=False):
     ctx.sample(c02._brief(traces[0])); ctx.sample(c02._brief(traces[-1]))
     verdicts = ctx.validate("SamplerTrace", traces, timeout=3000)
     ctx.judge(traces, verdicts, families=FAMILIES)
+    # one TheJoker under every short HISTORY of marginal-likelihood and sampling calls on two data sets (spec/History.tla): the
+    # marginal likelihoods it returns may depend on (prior, data, library) only - "regardless of which samples or posterior draws
+    # the same sampler evaluated before"
+    from .. import history
+    history.check(ctx, "sampler", {"C05"}, ("C05.", "H."), selftest=selftest, cap=70 if ctx.tier == "quick" else None)
     if selftest or not quick:
         _selftest(ctx, traces)
 
